@@ -258,6 +258,22 @@ def run_fault(ctx, case):
         ctx.fail("fault:%s:lineno-is-%s" % (exp["fault"], rel), {"error": type(err).__name__, "got": got, "expected_lines": sorted(ok_lines), "text": text[:800], "expect": exp})
     elif len(ctx.samples) < 6:
         ctx.sample({"fault": exp["fault"], "error": type(err).__name__, "lineno": got, "source_line": text.split("\n")[got - 1][:80]})
+    if got is not None and got in ok_lines and case.get("rseed", 0) % 3 == 0:
+        # the same file evaluated command by command through .result (Program.run is never called): the same error, a line
+        # of the same command
+        err2 = None
+        try:
+            prog2 = Program.from_source(text, working_dir=d)
+            for c2 in list(prog2.commands.values()):
+                c2.result
+        except Exception as e:
+            err2 = e
+        if isinstance(err2, MPilotError) and type(err2).__name__ == type(err).__name__:
+            ctx.count("fault_linenos_checked")
+            got2 = getattr(err2, "lineno", None)
+            if got2 is None or got2 not in ok_lines:
+                ctx.fail("fault:%s:evaluated-through-result:%s" % (exp["fault"], "lineno-missing" if got2 is None else "lineno-is-other-line"), {"through_run": got, "through_result": got2, "expected_lines": sorted(ok_lines), "text": text[:600]})
+                return
     if case.get("cli") and got is not None:
         _check_cli(ctx, model, text, ok_lines, exp)
 
@@ -391,6 +407,43 @@ RUNTIME = {
 }
 GOOD = {"bad-direction": "LowToHigh", "bad-direction-binary": "HighToLow", "dup-raw": "[1, 2]", "bad-truest": "Falsest", "k-too-big": "1"}
 BAD = {"bad-direction": "Sideways", "bad-direction-binary": "up", "dup-raw": "[1, 1]", "bad-truest": "Middle", "k-too-big": "3"}
+
+
+def run_shapes(ctx, case):
+    """Fields of different lengths listed on separate lines: the error names the command's own line, the line of the argument,
+    or the line of the field that does not fit - not the line of a field that does."""
+    from mpilot.program import Program
+    rng = random.Random(case["rseed"])
+    d = ctx.scratch()
+    with open(os.path.join(d, "four.csv"), "w") as f:
+        f.write("a,b,c\n1,2,3\n4,5,6\n7,8,9\n1,1,1\n")
+    with open(os.path.join(d, "two.csv"), "w") as f:
+        f.write("z\n1\n2\n")
+    k = rng.randint(3, 5)
+    odd = rng.randrange(1, k)
+    fields = ["F%d" % i for i in range(k)]
+    lines = ['F%d = EEMSRead(InFileName = "%s", InFieldName = %s)' % (i, "two.csv" if i == odd else "four.csv", "z" if i == odd else "abc"[i % 3]) for i in range(k)]
+    lines += [""] * rng.randint(0, 2)
+    cmd = rng.choice(["Sum", "Mean", "Maximum", "Minimum", "Multiply"])
+    start = len(lines) + 1
+    block = ["X = %s(" % cmd, "    InFieldNames = ["] + ["        %s%s" % (fn, "," if i < k - 1 else "") for i, fn in enumerate(fields)] + ["    ]", ")"]
+    text = "\n".join(lines + block)
+    ok = {start, start + 1, start + 2 + odd}
+    if odd == 1:
+        ok.add(start + 2)        # with the second field the odd one out, the first may just as well be named
+    err = None
+    try:
+        Program.from_source(text, working_dir=d).run()
+    except Exception as e:
+        err = e
+    if type(err).__name__ != "MixedArrayShapes":
+        ctx.dontcare("fields of different lengths gave %s" % type(err).__name__)
+        return
+    ctx.count("runtime_fault_linenos_checked")
+    ctx.feature(("shapes", cmd, k, odd))
+    got = getattr(err, "lineno", None)
+    if got is not None and got not in ok:
+        ctx.fail("runtime-fault:fields-of-different-lengths:%s" % ("line-of-a-field-that-fits" if start + 2 <= got < start + 2 + k else "line-of-another-command"), {"got": got, "acceptable": sorted(ok), "text": text})
 
 
 def run_thresholds(ctx, case):
@@ -781,6 +834,8 @@ def run_case(ctx, case):
     if case["kind"] == "runtime":
         if case["rseed"] % 6 == 0:
             run_thresholds(ctx, case)
+        if case["rseed"] % 4 == 1:
+            run_shapes(ctx, case)
         return run_runtime(ctx, case)
     if case["kind"] == "dupline":
         return run_dupline(ctx, case)
